@@ -266,6 +266,11 @@ example (fuel : Nat) (s : KState ℚ Nat)
   scheduled_at_most_once Once.demoBody fuel _ s
     ((Once.Inv0.init false 0 #[] (fun r => by simp [default])).spawn 0 0) (Once.demo_safe.run fuel _) hr
 
+/-- a run in which one process waits for an event that another process succeeds one time unit later satisfies the
+hypotheses (decided by evaluating its 6 steps), although the program text alone is not `SafeProg` -/
+example : Once.Inv0 true Once.wait0 ∧ Once.SafeRun Once.waitBody 5 Once.wait0 ∧ ¬ Once.SafeProg Once.waitBody :=
+  ⟨Once.wait0_inv, Once.wait_safe, Once.wait_not_safeProg⟩
+
 /-- a process that calls `succeed()` on its own Process object: the start state satisfies the invariant, … -/
 example : Once.Inv0 false Once.bad0 := Once.bad0_inv
 /-- … the third step of the run pops an event that has been processed already and raises the `TypeError`, exactly as
